@@ -289,6 +289,13 @@ class Gen:
                         R.append("R fd %d 1 %d tm_unreg %d" % (f, k, t))
                     else:
                         R.append("R fd %d 1 %d tm_reg %d 1 %d 0" % (f, k, t, r.choice([2, 7])))
+                if self.n["tk"] and r.random() < 0.5:
+                    # ... or a task is registered (and re-registers itself): "do not block" must win
+                    # over the armed kernel timer
+                    k = self.pick_obj("tk")
+                    R.append("R fd %d 1 %d tk_reg %d" % (f, r.randint(5, 10), k))
+                    if r.random() < 0.7:
+                        R.append("R tk %d 0 %d tk_reg %d" % (k, r.choice([1, 1, 0]), k))
         elif mode == "tasks" and self.n["tk"]:
             for k in range(1, self.n["tk"] + 1):
                 if r.random() < 0.8:
